@@ -107,6 +107,23 @@ fn kinds() -> Vec<KindDef> {
         KindDef { name: "sector-crc", spec: base(1, Attrs::CrcsThenNone, true, files_basic()), signed: false, protects: &["file-data"], prefix: 0, intact_only: false },
         KindDef { name: "attr-crc32", spec: base(1, Attrs::Crc32, false, files_basic()), signed: false, protects: &["file-data", "sector-offset-table", "attributes-file"], prefix: 0, intact_only: false },
         KindDef { name: "attr-full-md5", spec: base(2, Attrs::Full, false, files_basic()), signed: false, protects: &["file-data", "sector-offset-table", "attributes-file"], prefix: 0, intact_only: false },
+        // files of 9..12 identical incompressible sectors: the data sectors are stored raw, the checksum sector (all
+        // entries equal) is stored compressed, in lengths of every residue modulo 4
+        KindDef {
+            name: "sector-crc-identical-raw-sectors",
+            spec: base(
+                1,
+                Attrs::CrcsThenNone,
+                true,
+                (9u8..=12)
+                    .map(|n| FileSpec { name: format!("rep\\same{n}.bin"), class: ContentClass::RepeatedRandomBlock, len: LenSpec { halves: 2 * n, delta: -3 }, seed: 40 + n as u32, method: M_ZLIB, enc: Enc::None, locale: 0 })
+                    .collect(),
+            ),
+            signed: false,
+            protects: &["file-data"],
+            prefix: 0,
+            intact_only: false,
+        },
         // CRC32+MD5 attributes and no sector checksums: the attribute digests are all that protects the file data
         KindDef { name: "attr-full-md5-no-sector-crc", spec: base(1, Attrs::FullThenNoCrcs, false, files_basic()), signed: false, protects: &["file-data", "sector-offset-table", "attributes-file"], prefix: 0, intact_only: false },
         KindDef { name: "v3-attr-crc32", spec: base(3, Attrs::Crc32, false, files_basic()), signed: false, protects: &["file-data", "sector-offset-table", "attributes-file"], prefix: 0, intact_only: false },
@@ -306,8 +323,14 @@ fn judge(cx: &Ctx, image: &[u8], region: Option<&Region>, tag: usize) -> Result<
                     o + 4 <= b && o + 4 <= image.len() && image[o..o + 4] != cx.b.bytes[o..o + 4] && (image[o..o + 4] == [0, 0, 0, 0] || image[o..o + 4] == [0xFF, 0xFF, 0xFF, 0xFF])
                 })
             });
+            // the same limit one step further: a change that reaches into a checksum sector which is stored
+            // compressed makes the whole sector undecodable, and an unusable checksum sector is read as "no
+            // checksums" (the tolerance real-world archives with broken checksum sectors rely on)
+            let altered = cx.b.crc_sectors.iter().any(|&(a, b)| (a..b.min(image.len())).any(|o| image[o] != cx.b.bytes[o]));
             if cleared {
                 f.signature = f.signature.replacen("silent-corruption:", "silent-corruption-with-checksum-entries-cleared:", 1);
+            } else if altered {
+                f.signature = f.signature.replacen("silent-corruption:", "silent-corruption-with-checksum-sector-made-unusable:", 1);
             }
         }
     }
